@@ -7,8 +7,6 @@ from ..spec import bip32 as SP
 from .common import *
 from . import C17
 
-PRIVKEY = PKG + '.keys.PrivateKey'
-PUBKEY = PKG + '.keys.PublicKey'
 
 
 def _cells_index():
@@ -88,12 +86,14 @@ def run(ctx):
             fpk = p.get_function('bip32.PrvKeyNode.private_key')
             with ctx.obligation('C01.KEYNORM', 'PrvKeyNode.private_key', cfg, fpk.where) as ob:
                 v, f = ev.call_function('bip32.PrvKeyNode.private_key', [node])
-                exp = T.obj(PRIVKEY, {'k': k, 'K': T.obj(PUBKEY, {'K': T.pt(k)})})
-                same_term(ob, v, exp, 'private_key is the scalar itself for either stored layout', fpk.where)
-                ob.require(T.raw_op('VALID_SK', k) in closure(f), 'the scalar is range-checked when the key object is built',
-                           fpk.where)
+                same_priv(ob, ev, v, k, 'private_key is the scalar itself for either stored layout', fpk.where)
+                raw_node, kraw = prv_node(layout, name='kraw')
+                vr, fr_ = ev.call_function('bip32.PrvKeyNode.private_key', [raw_node])
+                for cs, leaf in normal_leaves(vr):
+                    ob.require(T.raw_op('VALID_SK', kraw) in known_at(fr_, cs),
+                               'the scalar is range-checked when the key object is built', fpk.where)
                 v2, _ = ev.call_function('bip32.PrvKeyNode.public_key', [node])
-                same_term(ob, v2, T.obj(PUBKEY, {'K': T.pt(k)}), 'public_key is point(k)', fpk.where)
+                same_pub(ob, ev, v2, T.pt(k), 'public_key is point(k)', fpk.where)
     # ------------------------------------------------------------------ fingerprints and serialisation
     ffp = p.get_function('bip32.PubKeyNode.fingerprint')
     fpfp = p.get_function('bip32.PubKeyNode.parent_fingerprint')
@@ -192,26 +192,26 @@ def run(ctx):
             r['init_int'] = ev.construct('keys.PrivateKey', [n])
             r['from_int'] = ev.call_function('keys.PrivateKey.from_int', [T.clsref(PRIVKEY), n])
             r['parse'] = ev.call_function('keys.PrivateKey.parse', [T.clsref(PRIVKEY), b])
-            r['sec'] = ev.call_function('keys.PublicKey.sec', [T.obj(PUBKEY, {'K': P})], {'compressed': c})
-            r['sec_default'] = ev.call_function('keys.PublicKey.sec', [T.obj(PUBKEY, {'K': P})])
+            pubP = mk_pub(p, be, P)
+            r['sec'] = ev.call_function('keys.PublicKey.sec', [pubP], {'compressed': c})
+            r['sec_default'] = ev.call_function('keys.PublicKey.sec', [pubP])
             r['pub_parse'] = ev.call_function('keys.PublicKey.parse', [T.clsref(PUBKEY), enc])
-            r['bytes'] = ev.call_function('keys.PrivateKey.__bytes__', [T.obj(PRIVKEY, {'k': b, 'K': T.obj(PUBKEY, {'K': T.pt(b)})})])
+            r['bytes'] = ev.call_function('keys.PrivateKey.__bytes__', [mk_priv(p, be, b)])
             res[be] = r
             nb = T.ser(n, T.const(32), BIG)
-            same_term(ob, r['init_bytes'][0], T.obj(PRIVKEY, {'k': b, 'K': T.obj(PUBKEY, {'K': T.pt(b)})}),
-                      'PrivateKey(bytes) [%s]' % be, finit.where)
-            ob.require(T.raw_op('VALID_SK', b) in closure(r['init_bytes'][1]),
-                       'PrivateKey(bytes) validates the scalar [%s]' % be, finit.where)
+            same_priv(ob, ev, r['init_bytes'][0], b, 'PrivateKey(bytes) [%s]' % be, finit.where)
+            for cs, leaf in normal_leaves(r['init_bytes'][0]):
+                ob.require(T.raw_op('VALID_SK', b) in known_at(r['init_bytes'][1], cs),
+                           'PrivateKey(bytes) validates the scalar [%s]' % be, finit.where)
             for nm in ('init_int', 'from_int'):
-                same_term(ob, r[nm][0], T.obj(PRIVKEY, {'k': nb, 'K': T.obj(PUBKEY, {'K': T.pt(nb)})}),
-                          'PrivateKey from int serialises to 32 bytes big-endian (%s) [%s]' % (nm, be), finit.where)
-            same_term(ob, r['parse'][0], r['init_bytes'][0], 'PrivateKey.parse == PrivateKey(bytes) [%s]' % be, finit.where)
+                same_priv(ob, ev, r[nm][0], nb, 'PrivateKey from int serialises to 32 bytes big-endian (%s) [%s]' % (nm, be), finit.where)
+            same_priv(ob, ev, r['parse'][0], b, 'PrivateKey.parse == PrivateKey(bytes) [%s]' % be, finit.where)
             same_term(ob, r['sec'][0], T.sec(P, c), 'PublicKey.sec honours the compressed flag [%s]' % be,
                       p.get_function('keys.PublicKey.sec').where)
             same_term(ob, r['sec_default'][0], T.sec(P, T.TRUE), 'PublicKey.sec defaults to compressed [%s]' % be,
                       p.get_function('keys.PublicKey.sec').where)
-            same_term(ob, r['pub_parse'][0], T.obj(PUBKEY, {'K': T.parse_pt(enc)}), 'PublicKey.parse [%s]' % be,
-                      p.get_function('keys.PublicKey.parse').where)
+            same_pub(ob, ev, r['pub_parse'][0], T.parse_pt(enc), 'PublicKey.parse [%s]' % be,
+                     p.get_function('keys.PublicKey.parse').where)
             ob.require(T.raw_op('ON_CURVE', enc) in closure(r['pub_parse'][1]),
                        'PublicKey.parse uses a validating secp256k1 parser [%s]' % be,
                        p.get_function('keys.PublicKey.parse').where)
